@@ -201,3 +201,34 @@ Theorem login_location_name_refuted :
 Proof.
   exists "a-b", "c", "a", "b-c". split; [repeat constructor|]. split; [discriminate | reflexivity].
 Qed.
+
+(* ---------------------------------------------------------------- append-unless-present (F12, F32) *)
+
+Lemma add_once_spec : forall x l, NoDup l -> NoDup (add_once x l) /\ (forall y, In y (add_once x l) <-> y = x \/ In y l).
+Proof.
+  intros x l H. unfold add_once. destruct (existsb (String.eqb x) l) eqn:E.
+  - split; [exact H|]. intros y. split; [now right|]. intros [->|Hy]; [|exact Hy].
+    apply existsb_exists in E as (z & Hz & Ez). apply String.eqb_eq in Ez. now subst z.
+  - split.
+    + assert (Hn : ~ In x l).
+      { intros Hin. assert (existsb (String.eqb x) l = true) by (apply existsb_exists; exists x; split; [exact Hin | apply String.eqb_refl]). congruence. }
+      clear E. induction l as [|a l IH]; cbn [app]; [constructor; [intros []|constructor]|].
+      inversion H as [|? ? Ha Hl]; subst. constructor.
+      * rewrite in_app_iff. intros [Hin|[->|[]]]; [now apply Ha | apply Hn; now left].
+      * apply IH; [exact Hl | intros Hin; apply Hn; now right].
+    + intros y. rewrite in_app_iff. cbn [In]. split; [intros [Hy|[->|[]]]; [now right | now left] | intros [->|Hy]; [right; now left | now left]].
+Qed.
+
+Theorem collect_once_nodup : forall xs, NoDup (collect_once xs) /\ (forall y, In y (collect_once xs) <-> In y xs).
+Proof.
+  unfold collect_once. intros xs.
+  assert (G : forall acc, NoDup acc ->
+              NoDup (fold_left (fun acc x => add_once x acc) xs acc) /\
+              (forall y, In y (fold_left (fun acc x => add_once x acc) xs acc) <-> In y xs \/ In y acc)).
+  { induction xs as [|x xs IH]; intros acc Ha; cbn [fold_left].
+    - split; [exact Ha|]. intros y. split; [now right | intros [[]|Hy]; exact Hy].
+    - destruct (add_once_spec x acc Ha) as [Hn Hi]. destruct (IH _ Hn) as [H1 H2]. split; [exact H1|].
+      intros y. rewrite H2, Hi. cbn [In]. split; [intros [Hy|[->|Hy]]; auto | intros [[->|Hy]|Hy]; auto]. }
+  destruct (G [] (NoDup_nil _)) as [H1 H2]. split; [exact H1|].
+  intros y. rewrite H2. split; [intros [Hy|[]]; exact Hy | now left].
+Qed.
